@@ -370,6 +370,10 @@ def simulated_anneal_tree(
         if progbar:
             pbar.update()
 
+    # the contraction index ordering of any parents of rotated nodes, and any
+    # compiled contractions, are now stale
+    tree.reset_contraction_indices()
+
     return tree
 
 
